@@ -70,6 +70,12 @@ CHECKS = {
     design_ref="DESIGN.md §5 C12",
     note="Trusted: TLC, harness projection (canonical JSON per observable group), rva_verif sweep hooks. Lint lists are compared order-insensitively (order is C10's).",
     technique="TLA+ stateful trace specification (Trace_Stable: extra passes = stuttering) + TLC-enumerated pass histories replayed with the real passes + sweep-counter hooks"),
+ "C19": dict(
+    category="model_checking",
+    text="TLC enumerates the whole value domain of the dump (Gen_Dump: nine value kinds and three memory-location kinds over boundary registers, offsets incl. i32::MIN/MAX, labels and CSR numbers, exhaustive); every value is serialized and reloaded through the real serde_yaml encoding and Trace_Dump validates reload = original and pairwise distinct text for distinct values. Programs (Gen_Values / Gen_Flow simulation, corpus, CSR programs) are dumped with CfgWrapper, reloaded and re-dumped (nothing lost), and all analysis results of a run that share a dump are compared group by group (nodes, edges, value facts, live sets, function annotations).",
+    design_ref="DESIGN.md §5 C19",
+    note="Trusted: TLC, harness (serde_yaml round trip through the public types). ParserNode equality is by unserialized id, so structural equality is judged through the re-dump.",
+    technique="TLA+ encoding contract (Trace_Dump: reload identity + injectivity) + TLC-enumerated value domain replayed through the real serializer + TLC trace validation"),
 }
 PENDING = "check not built yet in this round (planned, see DESIGN.md §5); not claimed until its check is green on the unchanged tree"
 m = {
